@@ -49,6 +49,21 @@ func init() {
 				"sampling: a clean batch is evidence, not proof"},
 			Run: func(t *tape.Tape) *core.RunResult { return sb.BoardSession(t, []string{p}) }})
 	}
+	register(&Spec{Prop: "C14", QuickRuns: 24000, Level: "exploration",
+		Rule: "one run = either an S-B board session (FEN codec round trip both ways at every state visited, model-drawn and tape-drawn clocks) or an engine history (Engine.Reset with tape-drawn clocks / Move / TakeBack, 3..250 calls) with Engine.Position() compared to the standard FEN of the model game after every call. Non-trivial = at least one take-back or fork and several moves; distinct = distinct hash of the decoded operation trace",
+		Real: append([]string{"pkg/engine (Engine.Reset/Move/TakeBack/Position)"}, sbReal...), Stub: sbStub,
+		Assumptions: []string{"verif/sim/rules is the reference for positions and for the FEN clock definitions", "the all-strings half of the codec statement is C19's (not claimed)", "sampling: a clean batch is evidence, not proof"},
+		Run: func(t *tape.Tape) *core.RunResult {
+			if t.Chance(1, 2) {
+				return sb.EngineSession(t)
+			}
+			return sb.BoardSession(t, []string{"C14"})
+		}})
+	register(&Spec{Prop: "C03", QuickRuns: 12000, Level: "exploration",
+		Rule: "one run = a tape-drawn game history (start FEN, 0..14 plies with repetition bias) followed by 1..3 real AlphaBeta.Search calls on the live board (depth 1..5 by material, full or selective exploration, static or quiescence leaf, seeded evaluation and move ordering), each compared with exhaustive negamax of the model game over the same moves and leaves (value via an independent integer score model, PV legality and optimality of its first move, board handed back unchanged). Non-trivial = a search was judged on a game with >= 2 plies of history; distinct = hash of the decoded trace",
+		Real: []string{"pkg/search (AlphaBeta, Quiescence, Leaf, exploration)", "pkg/eval (Score)", "pkg/board"}, Stub: []string{"leaf evaluator and exploration predicates are harness-supplied position-determined functions, applied identically to the real search and to M-search (verif/sim/msearch)"},
+		Assumptions: []string{"reference = verif/sim/msearch on verif/sim/rules; repo's own Minimax is not the oracle", "value at a root that is already drawn is not judged (sentence leaves it open); over-budget reference searches are counted as inconclusive", "sampling: a clean batch is evidence, not proof"},
+		Run: sb.SearchSessionC03})
 }
 
 // SelfTest validates the harness' own oracles; an error is harness trouble (exit 2).
